@@ -429,19 +429,61 @@ type Epub struct {
 	Token   string
 }
 
-// hrefEsc percent-encodes what an IRI path needs encoded (space, non-ASCII);
-// '+' is never generated.
-func hrefEsc(p string) string {
+// hrefEsc writes a container path as a relative URI reference (RFC 3986 §3.3):
+// unreserved characters, '/', '@' and the sub-delimiters stay as they are,
+// everything else (space, '%', '#', '?', ':', brackets, '^', '`', braces, ...,
+// non-ASCII) is percent-encoded.  '+' is never generated.  The result may hold
+// '&' and '\'': XML-escape it when it goes into an attribute.
+func hrefEsc(p string) string { return pctEsc(p, "!$&'()*,;=@") }
+
+// hrefEscAll is the spelling of a producer that escapes each path segment like
+// a URI component: the sub-delimiters and '@' are percent-encoded as well.
+func hrefEscAll(p string) string { return pctEsc(p, "") }
+
+func pctEsc(p string, keep string) string {
 	var b strings.Builder
 	for i := 0; i < len(p); i++ {
 		c := p[i]
-		if c == ' ' || c >= 0x80 || c == '%' {
-			fmt.Fprintf(&b, "%%%02X", c)
-		} else {
+		switch {
+		case c >= 'a' && c <= 'z', c >= 'A' && c <= 'Z', c >= '0' && c <= '9',
+			c == '-', c == '.', c == '_', c == '~', c == '/',
+			strings.IndexByte(keep, c) >= 0:
 			b.WriteByte(c)
+		default:
+			fmt.Fprintf(&b, "%%%02X", c)
 		}
 	}
 	return b.String()
+}
+
+// awkwardPieces: parts of file names that OCF allows (OCF 3.x "File Names":
+// anything but / " * : < > ? \ | DEL, controls and a trailing full stop) but
+// that are delimiters or escapes in a URI: a stray '%' (alone, before non-hex,
+// before hex), '#', brackets, the sub-delimiters, blanks, '^', '`', braces.
+// Written verbatim such a name is not a well-formed URI reference, or reads as
+// one with a fragment; percent-encoded it is an ordinary one.
+var awkwardPieces = []string{"100%", "50% off", "%", "%zz", "%41", "a%2", "%20", "#1", "No. #2", "a#b", "ch[1]", "[draft]", "Q&A", "it's",
+	"(final)", "v1,2", "x;y", "a=b", "@home", "wow!", "$5", "~tmp", "{x}", "^up", "`q`", "Chapter One", "part 2", "%#", "#%"}
+
+var awkwardDirs = []string{"", "", "", "Text/", "Text #2/", "50%/", "[1]/", "a&b/", "x y/", "%2F/"}
+
+// awkwardName: a path (relative to the OPF directory) built from awkwardPieces,
+// ending in ext, different (in any letter case) from every path in used.
+func awkwardName(r *hx.Rng, dirs []string, ext string, used map[string]bool) string {
+	for {
+		var b strings.Builder
+		b.WriteString(hx.Pick(r, dirs))
+		for j, k := 0, r.Range(1, 2); j < k; j++ {
+			if j > 0 {
+				b.WriteString(hx.Pick(r, []string{"", " ", "-", "_"}))
+			}
+			b.WriteString(hx.Pick(r, awkwardPieces))
+		}
+		b.WriteString(ext)
+		if p := b.String(); !used[strings.ToLower(p)] {
+			return p
+		}
+	}
 }
 
 func xhtmlChapter(title, text string) []byte { return xhtmlChapterParas(title, text, nil, nil) }
@@ -460,7 +502,13 @@ func xhtmlChapterParas(title, text string, pre, post []string) []byte {
 		`<html xmlns="http://www.w3.org/1999/xhtml"><head><title>` + title + `</title><link rel="stylesheet" type="text/css" href="style.css"/></head><body><h1>` + title + `</h1>` + paras(pre) + `<p>` + text + `</p>` + paras(post) + `</body></html>`)
 }
 
-func genEpub(r *hx.Rng, token string) *Epub {
+// genEpub: one in four chapter / font names is an awkward one.
+func genEpub(r *hx.Rng, token string) *Epub { return genEpubNames(r, token, 1) }
+
+// genEpubNames: awk of every four chapter and font file names are awkward ones
+// (awkwardName); the others come from the conventional lists.
+func genEpubNames(r *hx.Rng, token string, awk int) *Epub {
+	used := map[string]bool{"nav.xhtml": true, "toc.ncx": true, "content.opf": true}
 	e := &Epub{Version: hx.Pick(r, []int{2, 3}), Base: hx.Pick(r, []string{"OEBPS/", "", "EPUB/", "OPS/"}), Token: token}
 	chapNames := [][]string{
 		{"ch1.xhtml", "chapter1.xhtml", "Text/ch1.xhtml", "text/Chapter One.xhtml"},
@@ -470,6 +518,10 @@ func genEpub(r *hx.Rng, token string) *Epub {
 	n := r.Range(1, 3)
 	for i := 0; i < n; i++ {
 		p := hx.Pick(r, chapNames[i])
+		if r.Chance(awk, 4) {
+			p = awkwardName(r, awkwardDirs, p[strings.LastIndexByte(p, '.'):], used)
+		}
+		used[strings.ToLower(p)] = true
 		mt := "application/xhtml+xml"
 		text := "chapter body"
 		if i == 0 {
@@ -480,16 +532,20 @@ func genEpub(r *hx.Rng, token string) *Epub {
 	}
 	if e.Version == 3 {
 		e.Items = append(e.Items, EItem{ID: "nav", Path: "nav.xhtml", MediaType: "application/xhtml+xml", Props: "nav",
-			Data: []byte(`<?xml version="1.0" encoding="UTF-8"?>` + "\n" + `<html xmlns="http://www.w3.org/1999/xhtml" xmlns:epub="http://www.idpf.org/2007/ops"><head><title>Nav</title></head><body><nav epub:type="toc"><ol><li><a href="` + hrefEsc(e.Items[0].Path) + `">Start</a></li></ol></nav></body></html>`)})
+			Data: []byte(`<?xml version="1.0" encoding="UTF-8"?>` + "\n" + `<html xmlns="http://www.w3.org/1999/xhtml" xmlns:epub="http://www.idpf.org/2007/ops"><head><title>Nav</title></head><body><nav epub:type="toc"><ol><li><a href="` + writers.XMLEsc(hrefEsc(e.Items[0].Path)) + `">Start</a></li></ol></nav></body></html>`)})
 	}
 	e.Items = append(e.Items, EItem{ID: "ncx", Path: "toc.ncx", MediaType: "application/x-dtbncx+xml",
-		Data: []byte(`<?xml version="1.0" encoding="UTF-8"?>` + "\n" + `<ncx xmlns="http://www.daisy.org/z3986/2005/ncx/" version="2005-1"><head><meta name="dtb:uid" content="urn:uuid:c20"/></head><docTitle><text>T</text></docTitle><navMap><navPoint id="n1" playOrder="1"><navLabel><text>Start</text></navLabel><content src="` + hrefEsc(e.Items[0].Path) + `"/></navPoint></navMap></ncx>`)})
+		Data: []byte(`<?xml version="1.0" encoding="UTF-8"?>` + "\n" + `<ncx xmlns="http://www.daisy.org/z3986/2005/ncx/" version="2005-1"><head><meta name="dtb:uid" content="urn:uuid:c20"/></head><docTitle><text>T</text></docTitle><navMap><navPoint id="n1" playOrder="1"><navLabel><text>Start</text></navLabel><content src="` + writers.XMLEsc(hrefEsc(e.Items[0].Path)) + `"/></navPoint></navMap></ncx>`)})
 	e.Items = append(e.Items, EItem{ID: "css", Path: hx.Pick(r, []string{"style.css", "Styles/main.css"}), MediaType: "text/css", Data: []byte("body { font-family: \"Emb\"; }\n")})
 	nf := r.Range(1, 2)
 	fonts := []struct{ p, mt string }{{"fonts/Emb-Regular.otf", "application/vnd.ms-opentype"}, {"Fonts/emb bold.ttf", "application/x-font-ttf"}, {"fonts/emb.woff", "application/font-woff"}, {"fonts/e.woff2", "font/woff2"}}
 	off := r.Intn(len(fonts))
 	for i := 0; i < nf; i++ {
 		f := fonts[(off+i)%len(fonts)]
+		if r.Chance(awk, 4) {
+			f.p = awkwardName(r, []string{"fonts/", "Fonts/", "", "fonts #1/", "100% fonts/"}, f.p[strings.LastIndexByte(f.p, '.'):], used)
+		}
+		used[strings.ToLower(f.p)] = true
 		e.Items = append(e.Items, EItem{ID: fmt.Sprintf("font%d", i+1), Path: f.p, MediaType: f.mt, Data: append([]byte("OTTO\x00\x01"), r.Bytes(40)...)})
 	}
 	img := hx.Pick(r, []struct{ p, mt string }{{"images/cover.png", "image/png"}, {"Images/cover.jpg", "image/jpeg"}, {"cover.svg", "image/svg+xml"}})
@@ -511,7 +567,7 @@ func (e *Epub) opf() []byte {
 	}
 	b.WriteString(`</metadata><manifest>`)
 	for _, it := range e.Items {
-		fmt.Fprintf(&b, `<item id="%s" href="%s" media-type="%s"`, it.ID, hrefEsc(it.Path), it.MediaType)
+		fmt.Fprintf(&b, `<item id="%s" href="%s" media-type="%s"`, it.ID, writers.XMLEsc(hrefEsc(it.Path)), it.MediaType)
 		if it.Props != "" && e.Version == 3 {
 			fmt.Fprintf(&b, ` properties="%s"`, it.Props)
 		}
